@@ -1266,9 +1266,15 @@ impl<const MIN_ALIGN: usize> Bump<MIN_ALIGN> {
                         // to its original value upon entry to this method
                         // (reclaiming any alignment padding we may have
                         // added).
-                        #[cfg(feature = "verif_hooks")]
-                        crate::verif_hooks::footer_store(current_footer_p.as_ptr() as *const u8, 2);
-                        current_ptr.set(rewind_ptr);
+                        //
+                        // Skip the write if nothing moved (a zero-sized
+                        // result): the footer may be the shared, static
+                        // `EMPTY_CHUNK`, which must never be written to.
+                        if current_ptr.get() != rewind_ptr {
+                            #[cfg(feature = "verif_hooks")]
+                            crate::verif_hooks::footer_store(current_footer_p.as_ptr() as *const u8, 2);
+                            current_ptr.set(rewind_ptr);
+                        }
                     } else {
                         // We allocated a new chunk for this result.
                         //
@@ -1379,9 +1385,15 @@ impl<const MIN_ALIGN: usize> Bump<MIN_ALIGN> {
                         // to its original value upon entry to this method
                         // (reclaiming any alignment padding we may have
                         // added).
-                        #[cfg(feature = "verif_hooks")]
-                        crate::verif_hooks::footer_store(current_footer_p.as_ptr() as *const u8, 4);
-                        current_ptr.set(rewind_ptr);
+                        //
+                        // Skip the write if nothing moved (a zero-sized
+                        // result): the footer may be the shared, static
+                        // `EMPTY_CHUNK`, which must never be written to.
+                        if current_ptr.get() != rewind_ptr {
+                            #[cfg(feature = "verif_hooks")]
+                            crate::verif_hooks::footer_store(current_footer_p.as_ptr() as *const u8, 4);
+                            current_ptr.set(rewind_ptr);
+                        }
                     } else {
                         // We allocated a new chunk for this result.
                         //
@@ -2024,9 +2036,15 @@ impl<const MIN_ALIGN: usize> Bump<MIN_ALIGN> {
             debug_assert!(!aligned_ptr.is_null());
             let aligned_ptr = NonNull::new_unchecked(aligned_ptr);
 
-            #[cfg(feature = "verif_hooks")]
-            crate::verif_hooks::footer_store(footer_ptr.as_ptr() as *const u8, 6);
-            footer.ptr.set(aligned_ptr);
+            // Only write the bump finger when it actually moves. A zero-sized
+            // allocation leaves it where it is, and the footer may then be the
+            // shared, statically allocated `EMPTY_CHUNK`, which must never be
+            // written to: every arena on every thread reads it.
+            if aligned_ptr.as_ptr() != ptr {
+                #[cfg(feature = "verif_hooks")]
+                crate::verif_hooks::footer_store(footer_ptr.as_ptr() as *const u8, 6);
+                footer.ptr.set(aligned_ptr);
+            }
             Some(aligned_ptr)
         }
     }
@@ -2280,7 +2298,10 @@ impl<const MIN_ALIGN: usize> Bump<MIN_ALIGN> {
     unsafe fn dealloc(&self, ptr: NonNull<u8>, layout: Layout) {
         // If the pointer is the last allocation we made, we can reuse the bytes,
         // otherwise they are simply leaked -- at least until somebody calls reset().
-        if self.is_last_allocation(ptr) {
+        //
+        // Zero-sized allocations have nothing to give back; skipping them also
+        // guarantees we never write to the shared, static `EMPTY_CHUNK`.
+        if layout.size() != 0 && self.is_last_allocation(ptr) {
             let ptr = self.current_chunk_footer.get().as_ref().ptr.get();
             let ptr = ptr.as_ptr().add(layout.size());
 
@@ -2337,7 +2358,8 @@ impl<const MIN_ALIGN: usize> Bump<MIN_ALIGN> {
         // the requested alignment.
         let delta = round_down_to(old_size - new_size, new_layout.align().max(MIN_ALIGN));
 
-        if self.is_last_allocation(ptr)
+        if delta != 0
+            && self.is_last_allocation(ptr)
                 // Only reclaim the excess space (which requires a copy) if it
                 // is worth it: we are actually going to recover "enough" space
                 // and we can do a non-overlapping copy.
